@@ -1899,7 +1899,7 @@ class Interp:
                 if last == "any" and body is not True and body is not False and body[0] == "atom":
                     x_ = body[1]
                     c_ = None
-                    if x_[0] == "variant" and x_[1] == elr_:
+                    if x_[0] == "variant" and x_[1] == elr_ and x_[2] not in ("Ok", "Err", "Some", "None"):
                         c_ = atom("contains", c0.r(), x_[2])
                     elif x_[0] == "eq" and elr_ in (x_[1], x_[2]):
                         c_ = atom("contains", c0.r(), x_[2] if x_[1] == elr_ else x_[1])
